@@ -6,6 +6,7 @@ use std::panic;
 
 mod oracle;
 mod c01;
+mod c04;
 mod c07;
 
 pub struct Rng(pub u64);
@@ -54,6 +55,7 @@ fn main() {
     match prop {
         "C01" => c01::search(&mut rng, budget, &mut fails),
         "C07" => c07::search(&mut rng, budget, &mut fails),
+        "C04" | "C03" => c04::search(&mut rng, budget, &mut fails),
         _ => {
             eprintln!("no replay search for {prop}");
             std::process::exit(2);
